@@ -77,7 +77,7 @@ WEAK void hk_epoll_ctl(int ep, int op, int fd, struct epoll_event *ev, int r, in
 WEAK void hk_inotify_init(int fd) { (void)fd; }
 
 /* ---- state ------------------------------------------------------------ */
-enum { T_FREE, T_RUNNING, T_BLOCKED_LOOP, T_BLOCKED_OTHER, T_WAKING };
+enum { T_FREE, T_RUNNING, T_BLOCKED_LOOP, T_BLOCKED_OTHER, T_WAKING, T_EXITED };
 
 #define MAXT 256
 struct vthr {
@@ -85,10 +85,12 @@ struct vthr {
 	_Atomic uint64_t	confirmed;	/* epoch at which an empty poll completed */
 	_Atomic int64_t		deadline;	/* BLOCKED_LOOP: V + timeout or VT_INF */
 	_Atomic int		tfd;		/* timerfd owned by this thread or -1 */
-	uint64_t		nwaits;
+	_Atomic uint64_t	nwaits;
 	uint64_t		rng;
 	int			exit_round;
-	int			wake_eintr;	/* leave the wait with EINTR (simulated signal at a point in virtual time) */
+	int			wake_eintr;
+	pthread_t		pth;
+	_Atomic int		has_pth, detached;	/* leave the wait with EINTR (simulated signal at a point in virtual time) */
 };
 static struct vthr thr[MAXT];
 static _Atomic int nslots;
@@ -140,6 +142,9 @@ static int slot_alloc(void)
 			thr[i].tfd = -1;
 			thr[i].nwaits = 0;
 			thr[i].exit_round = 0;
+			thr[i].has_pth = 0;
+			thr[i].detached = 0;
+			thr[i].wake_eintr = 0;
 			thr[i].rng = (case_seed * 0x9E3779B97F4A7C15ULL) ^ ((uint64_t)(i + 1) << 32) ^ 0x5DEECE66DULL;
 			if (i >= nslots)
 				nslots = i + 1;
@@ -364,6 +369,26 @@ static void exit_dtor(void *v)
 		return;
 	}
 	hk_thread_exit();
+	if (t->has_pth && !t->detached) {
+		/*
+		 * A joinable thread keeps its place in the "running" account until it has been joined:
+		 * the joiner inherits it.  (Giving it up here would open a window in which the joiner is
+		 * still counted as blocked although nothing keeps it from running.)
+		 */
+		int exp = T_RUNNING;
+		if (atomic_compare_exchange_strong(&t->state, &exp, T_EXITED)) {
+			atomic_fetch_add(&epoch, 1);
+			if (t->detached) {	/* detached in the meantime */
+				exp = T_EXITED;
+				if (atomic_compare_exchange_strong(&t->state, &exp, T_FREE)) {
+					atomic_fetch_add(&epoch, 1);
+					atomic_fetch_sub(&running, 1);
+				}
+			}
+			return;
+		}
+	}
+	t->has_pth = 0;
 	atomic_store(&t->state, T_FREE);
 	atomic_fetch_add(&epoch, 1);
 	atomic_fetch_sub(&running, 1);
@@ -377,6 +402,9 @@ static void *thread_tramp(void *v)
 
 	free(v);
 	my_slot = slot_alloc();		/* already counted as running by the creator */
+	thr[my_slot].pth = pthread_self();
+	thr[my_slot].detached = 0;
+	thr[my_slot].has_pth = 1;
 	if (exit_key_ok)
 		pthread_setspecific(exit_key, &thr[my_slot]);
 	return tr.fn(tr.arg);
@@ -415,7 +443,24 @@ int __wrap_pthread_join(pthread_t th, void **retval)
 		return __real_pthread_join(th, retval);
 	vt_block_begin();
 	ret = __real_pthread_join(th, retval);
-	vt_block_end();
+	{
+		/* inherit the place of the joined thread in the running account, if it still holds one */
+		int i, inherited = 0;
+		for (i = 0; i < nslots && !inherited; i++) {
+			int exp = T_EXITED;
+			if (thr[i].has_pth && pthread_equal(thr[i].pth, th) &&
+			    atomic_compare_exchange_strong(&thr[i].state, &exp, T_FREE)) {
+				thr[i].has_pth = 0;
+				inherited = 1;
+			}
+		}
+		if (inherited) {
+			atomic_fetch_add(&epoch, 1);
+			atomic_store(&thr[vt_self()].state, T_RUNNING);
+		} else {
+			vt_block_end();
+		}
+	}
 	hk_thread_join((unsigned long)th);
 	return ret;
 }
@@ -424,7 +469,21 @@ int vt_join(unsigned long th) { return __wrap_pthread_join((pthread_t)th, NULL);
 
 int __wrap_pthread_detach(pthread_t th)
 {
+	int i;
+
 	hk_thread_detach((unsigned long)th);
+	for (i = 0; i < nslots; i++) {
+		if (thr[i].has_pth && pthread_equal(thr[i].pth, th) && thr[i].state != T_FREE) {
+			int exp = T_EXITED;
+			thr[i].detached = 1;
+			if (atomic_compare_exchange_strong(&thr[i].state, &exp, T_FREE)) {
+				thr[i].has_pth = 0;
+				atomic_fetch_add(&epoch, 1);
+				atomic_fetch_sub(&running, 1);
+			}
+			break;
+		}
+	}
 	return __real_pthread_detach(th);
 }
 
@@ -467,19 +526,30 @@ static void tfd_fire_real(int fd)
 {
 	struct itimerspec its;
 	struct pollfd p;
-	int i;
+	int i, owner;
+	uint64_t w0;
 
+	for (owner = 0; owner < nslots; owner++)
+		if (thr[owner].tfd == fd)
+			break;
+	w0 = owner < nslots ? thr[owner].nwaits : 0;
 	memset(&its, 0, sizeof(its));
 	its.it_value.tv_nsec = 1;
 	__real_timerfd_settime(fd, 0, &its, NULL);
 	p.fd = fd;
 	p.events = POLLIN;
-	for (i = 0; i < 100; i++) {
+	/* wait until the expiry is visible - or was already consumed by the owning thread, which then left its wait */
+	for (i = 0; i < 20000; i++) {
+		struct timespec ts = { 0, 50000 };
 		p.revents = 0;
-		if (__real_poll(&p, 1, 10) > 0)
+		if (__real_ppoll(&p, 1, &ts, NULL) > 0)
+			break;
+		if (owner < nslots && owner != my_slot && (thr[owner].state != T_BLOCKED_LOOP || thr[owner].nwaits != w0))
 			break;
 	}
-	if (fd >= 0 && fd < MAXFD)
+	if (i == 20000 && getenv("VT_DEBUG"))
+		fprintf(stderr, "VTDBG tfd_fire_real(%d): never readable (used=%d armed=%d)\n", fd, (int)vtfd[fd].used, (int)vtfd[fd].armed);
+	if (fd >= 0 && fd < MAXFD && p.revents)
 		vtfd[fd].fired = 1;
 	vt_stats.timerfd_fires++;
 }
@@ -542,17 +612,21 @@ struct waitreq {
 	int64_t timeout_ns;
 };
 
-static int real_wait(struct waitreq *rq, int ms, const sigset_t *mask)
+#define SLICE_US 150
+
+/* slice: 0 = non-blocking probe, 1 = one short real-time slice */
+static int real_wait(struct waitreq *rq, int slice, const sigset_t *mask)
 {
-	if (rq->kind == VT_EPOLL_PWAIT2 || rq->kind == VT_EPOLL_WAIT) {
-		return epoll_pwait(rq->epfd, rq->ev, rq->maxev, ms, mask);
-	} else {
-		struct timespec ts = { ms / 1000, (ms % 1000) * 1000000L };
-		return __real_ppoll(rq->pfd, rq->npfd, &ts, mask);
-	}
+	struct timespec ts = { 0, slice ? SLICE_US * 1000L : 0 };
+
+	if (rq->kind == VT_EPOLL_PWAIT2 || rq->kind == VT_EPOLL_WAIT)
+		return __real_epoll_pwait2(rq->epfd, rq->ev, rq->maxev, &ts, mask);
+	return __real_ppoll(rq->pfd, rq->npfd, &ts, mask);
 }
 
 enum { Q_NONE, Q_WOKE_ME };
+static _Atomic long dbg_slices, dbg_unconfirmed, dbg_tq, dbg_running, dbg_notconf;
+static void dbg_dump(void) { fprintf(stderr, "VTDBG slices=%ld unconfirmed=%ld tq=%ld fail_running=%ld fail_notconf=%ld\n", (long)dbg_slices, (long)dbg_unconfirmed, (long)dbg_tq, (long)dbg_running, (long)dbg_notconf); }
 
 static struct vthr *cur_decider;
 
@@ -569,20 +643,33 @@ static int try_quiesce(struct vthr *me)
 	int64_t best = VT_INF;
 	int best_kind = 0, best_idx = -1;	/* 1 stimulus, 2 timerfd, 3 timeout */
 
-	if (running != 0)
+	if (getenv("VT_DEBUG")) {
+		static int cnt;
+		if (++cnt % 20000 == 0) {
+			fprintf(stderr, "VTDBG running=%d ext=%d epoch=%llu:", (int)running, (int)ext_pending, (unsigned long long)e1);
+			for (i = 0; i < n; i++)
+				fprintf(stderr, " [%d st=%d conf=%llu dl=%lld]", i, (int)thr[i].state, (unsigned long long)thr[i].confirmed, (long long)thr[i].deadline);
+			fprintf(stderr, "\n");
+		}
+	}
+	if (running != 0) {
+		dbg_running++;
 		return Q_NONE;
+	}
 	if (ext_pending != 0) {
 		hk_ext_poll();
 		return Q_NONE;
 	}
 	for (i = 0; i < n; i++) {
 		int st = thr[i].state;
-		if (st == T_FREE || st == T_BLOCKED_OTHER)
+		if (st == T_FREE || st == T_BLOCKED_OTHER || st == T_EXITED)
 			continue;
 		if (st != T_BLOCKED_LOOP)
 			return Q_NONE;
-		if (thr[i].confirmed != e1)
+		if (thr[i].confirmed != e1) {
+			dbg_notconf++;
 			return Q_NONE;
+		}
 	}
 	if (epoch != e1 || running != 0 || ext_pending != 0)
 		return Q_NONE;
@@ -656,14 +743,21 @@ static int try_quiesce(struct vthr *me)
 		atomic_fetch_add(&epoch, 1);
 		return Q_NONE;
 	}
-	/* time-out of thread best_idx */
+	/* time-outs: every blocked thread whose deadline has been reached wakes now, concurrently */
 	{
-		int exp = T_BLOCKED_LOOP;
-		if (atomic_compare_exchange_strong(&thr[best_idx].state, &exp, T_WAKING)) {
-			atomic_fetch_add(&running, 1);
-			atomic_fetch_add(&epoch, 1);
+		int woke_me = 0;
+		for (i = 0; i < n; i++) {
+			int exp = T_BLOCKED_LOOP;
+			if (thr[i].state != T_BLOCKED_LOOP || thr[i].deadline > V)
+				continue;
+			if (atomic_compare_exchange_strong(&thr[i].state, &exp, T_WAKING)) {
+				atomic_fetch_add(&running, 1);
+				atomic_fetch_add(&epoch, 1);
+			}
+			if (&thr[i] == me)
+				woke_me = 1;
 		}
-		if (&thr[best_idx] == me)
+		if (woke_me)
 			return Q_WOKE_ME;
 	}
 	return Q_NONE;
@@ -762,9 +856,13 @@ static int do_wait(struct waitreq *rq, int ms_granular)
 			atomic_store(&t->state, T_RUNNING);
 			break;
 		}
+		dbg_slices++;
 		if (epoch == s)
 			t->confirmed = s;
+		else
+			dbg_unconfirmed++;
 		if (pthread_mutex_trylock(&Q) == 0) {
+			dbg_tq++;
 			int r = try_quiesce(t);
 			__real_pthread_mutex_unlock(&Q);
 			if (r == Q_WOKE_ME) {
@@ -1057,6 +1155,8 @@ void vt_init(void)
 		fprintf(stderr, "VT: bad fault plan %s\n", s);
 		_exit(2);
 	}
+	if (getenv("VT_DEBUG"))
+		atexit(dbg_dump);
 	if ((s = getenv("VT_PERTURB")) != NULL)
 		perturb_level = atoi(s);
 }
